@@ -16,6 +16,14 @@ FAMILIES = [
 EPS = 2.0 ** -52
 
 
+def natural(x):
+    """the sample as a caller would naturally hold it: whole numbers as ints (an all-integer sample becomes an
+    integer-typed array, e.g. 0/1 assorter values), everything else float."""
+    import numpy as np
+
+    return np.array([int(v) if float(v).is_integer() else float(v) for v in x])
+
+
 def make_test(cfg):
     import numpy as np
     from shangrla.core.NonnegMean import NonnegMean
@@ -122,6 +130,10 @@ def config(draw, family, dyadic=False, max_N=60, min_N=1, ut=None, dyadic_g=Fals
         cfg["random_order"] = draw(st.sampled_from([True, True, False]))
     else:
         raise ValueError(fam)
+    if base.startswith("alpha-") or base.startswith("bet-") or base == "sprt-fin":
+        # the constructor accepts the flag for every test; C11 quantifies over both settings
+        # (the finite-population SPRT documents that it refuses random_order=False: checked in C11)
+        cfg["random_order"] = draw(st.sampled_from([True, True, True, False])) if base != "sprt-fin" else True
     if dyadic or dyadic_g:
         for k in ("g",):
             if k in kw:
